@@ -200,7 +200,6 @@ def generic_t1(chk, wc, mod, tier, seed):
 
 def replay(mod, path):
     d = json.load(open(path))
-    chk = vlib.Check(mod.PID, d.get("tier", "quick"), d.get("seed", 1))
     with vlib.WorkCopy(mod.PID) as wc:
         wc.build()
         wc.build_harness()
